@@ -1116,7 +1116,14 @@ class CircuitDAG(CircuitBase):
         :return: nothing
         :rtype: None
         """
-        for node in self.node_dict["Output"]:
+
+        def groupable(node_id):
+            # only unitary one-qubit gates can be wrapped (a Z measurement also carries the "one-qubit" label)
+            return node_id in self.node_dict.get("one-qubit", []) and isinstance(
+                self.dag.nodes[node_id]["op"], ops.OneQubitOperationBase
+            )
+
+        for node in self.node_dict.get("Output", []):
             # traverse the circuit DAG in the reversed order
             reg_type = self.dag.nodes[node]["op"].reg_type
             register = self.dag.nodes[node]["op"].register
@@ -1131,7 +1138,7 @@ class CircuitDAG(CircuitBase):
                 edge = self.edge_from_reg(in_edges, f"{reg_type}{register}")
                 next_node = edge[0]
 
-                if node in self.node_dict["one-qubit"]:
+                if groupable(node):
                     node_info = self.dag.nodes[node]
                     op = node_info["op"]
 
@@ -1140,7 +1147,7 @@ class CircuitDAG(CircuitBase):
                     else:
                         gate_list.append(op.__class__)
                     self.remove_op(node)
-                if next_node not in self.node_dict["one-qubit"] and gate_list:
+                if not groupable(next_node) and gate_list:
                     # insert new op here
                     out_edges = self.dag.out_edges(nbunch=next_node, keys=True)
                     insert_edge = self.edge_from_reg(out_edges, f"{reg_type}{register}")
